@@ -67,5 +67,9 @@ static void domainAcl(const unsigned maxValues, const unsigned VLEN, const unsig
 extern "C" void c41_two_values(void) { domainAcl(2, 2, 3); }
 extern "C" void c41_two_long_values(void) { domainAcl(2, 3, 3); }
 // names over {a,-,.}: '-' is the one host-name character that sorts below '.', which the splay ordering (matchDomainName) has to get right
+#ifdef VF_THOROUGH
 extern "C" void c41_hyphen(void) { domainAcl(2, 3, 3, '-', '-'); }
+#else
+extern "C" void c41_hyphen(void) { domainAcl(2, 2, 3, '-', '-'); }
+#endif
 extern "C" void c41_three_values(void) { domainAcl(3, 2, 3); }   // not in a tier: did not finish within 8 minutes together with the entry above
